@@ -115,10 +115,13 @@ const (
 // Parse parses an argument list. It returns the parsed options, the non-option
 // arguments, and any error.
 func Parse(args []string, specs []*OptionSpec, cfg Config) ([]*Option, []string, error) {
-	opts, nonOptArgs, opt, _ := parse(args, specs, cfg)
+	opts, nonOptArgs, opt, _, extraArgOpts := parse(args, specs, cfg)
 	var err error
 	if opt != nil {
 		err = fmt.Errorf("missing argument for %s", optionPart(opt))
+	}
+	for _, opt := range extraArgOpts {
+		err = errutil.Multi(err, fmt.Errorf("option %s takes no argument", optionPart(opt)))
 	}
 	for _, opt := range opts {
 		if opt.Unknown {
@@ -139,7 +142,7 @@ func optionPart(opt *Option) string {
 // options, the non-option arguments, and the context of the last argument. It
 // tolerates unknown options, assuming that they take optional arguments.
 func Complete(args []string, specs []*OptionSpec, cfg Config) ([]*Option, []string, Context) {
-	opts, nonOptArgs, opt, stopOpt := parse(args[:len(args)-1], specs, cfg)
+	opts, nonOptArgs, opt, stopOpt, _ := parse(args[:len(args)-1], specs, cfg)
 
 	arg := args[len(args)-1]
 	var ctx Context
@@ -157,7 +160,7 @@ func Complete(args []string, specs []*OptionSpec, cfg Config) ([]*Option, []stri
 		if !strings.ContainsRune(arg, '=') {
 			ctx = Context{Type: LongOption, Text: arg[2:]}
 		} else {
-			newopt, _ := parseLong(arg[2:], specs)
+			newopt, _, _ := parseLong(arg[2:], specs)
 			ctx = Context{Type: OptionArgument, Option: newopt}
 		}
 	case strings.HasPrefix(arg, "-"):
@@ -165,7 +168,7 @@ func Complete(args []string, specs []*OptionSpec, cfg Config) ([]*Option, []stri
 			if !strings.ContainsRune(arg, '=') {
 				ctx = Context{Type: LongOption, Text: arg[1:]}
 			} else {
-				newopt, _ := parseLong(arg[1:], specs)
+				newopt, _, _ := parseLong(arg[1:], specs)
 				ctx = Context{Type: OptionArgument, Option: newopt}
 			}
 		} else {
@@ -184,7 +187,7 @@ func Complete(args []string, specs []*OptionSpec, cfg Config) ([]*Option, []stri
 	return opts, nonOptArgs, ctx
 }
 
-func parse(args []string, spec []*OptionSpec, cfg Config) ([]*Option, []string, *Option, bool) {
+func parse(args []string, spec []*OptionSpec, cfg Config) ([]*Option, []string, *Option, bool, []*Option) {
 	var (
 		opts       []*Option
 		nonOptArgs []string
@@ -194,7 +197,19 @@ func parse(args []string, spec []*OptionSpec, cfg Config) ([]*Option, []string, 
 		// Whether option parsing has been stopped. The condition is controlled
 		// by the StopAfterDoubleDash and StopBeforeFirstNonOption bits in cfg.
 		stopOpt bool
+		// Long options that take no argument but were given one with "=".
+		extraArgOpts []*Option
 	)
+	addLong := func(newopt *Option, needArg, extraArg bool) {
+		if needArg {
+			opt = newopt
+		} else {
+			opts = append(opts, newopt)
+		}
+		if extraArg {
+			extraArgOpts = append(extraArgOpts, newopt)
+		}
+	}
 	for _, arg := range args {
 		switch {
 		case opt != nil:
@@ -206,20 +221,10 @@ func parse(args []string, spec []*OptionSpec, cfg Config) ([]*Option, []string, 
 		case cfg.has(StopAfterDoubleDash) && arg == "--":
 			stopOpt = true
 		case strings.HasPrefix(arg, "--") && arg != "--":
-			newopt, needArg := parseLong(arg[2:], spec)
-			if needArg {
-				opt = newopt
-			} else {
-				opts = append(opts, newopt)
-			}
+			addLong(parseLong(arg[2:], spec))
 		case strings.HasPrefix(arg, "-") && arg != "--" && arg != "-":
 			if cfg.has(LongOnly) {
-				newopt, needArg := parseLong(arg[1:], spec)
-				if needArg {
-					opt = newopt
-				} else {
-					opts = append(opts, newopt)
-				}
+				addLong(parseLong(arg[1:], spec))
 			} else {
 				newopts, needArg := parseShort(arg[1:], spec)
 				if needArg {
@@ -236,7 +241,7 @@ func parse(args []string, spec []*OptionSpec, cfg Config) ([]*Option, []string, 
 			}
 		}
 	}
-	return opts, nonOptArgs, opt, stopOpt
+	return opts, nonOptArgs, opt, stopOpt, extraArgOpts
 }
 
 // Parses short options, without the leading dash. Returns the parsed options
@@ -278,9 +283,10 @@ func findShort(r rune, specs []*OptionSpec) *OptionSpec {
 	return nil
 }
 
-// Parses a long option, without the leading dashes. Returns the parsed option
-// and whether an argument is still to be seen.
-func parseLong(s string, specs []*OptionSpec) (*Option, bool) {
+// Parses a long option, without the leading dashes. Returns the parsed option,
+// whether an argument is still to be seen, and whether an argument was given to
+// an option that takes none.
+func parseLong(s string, specs []*OptionSpec) (*Option, bool, bool) {
 	eq := strings.IndexRune(s, '=')
 	for _, opt := range specs {
 		if opt.Long == "" {
@@ -288,17 +294,17 @@ func parseLong(s string, specs []*OptionSpec) (*Option, bool) {
 			continue
 		}
 		if s == opt.Long {
-			return &Option{Spec: opt, Long: true}, opt.Arity == RequiredArgument
+			return &Option{Spec: opt, Long: true}, opt.Arity == RequiredArgument, false
 		} else if eq != -1 && s[:eq] == opt.Long {
-			return &Option{Spec: opt, Long: true, Argument: s[eq+1:]}, false
+			return &Option{Spec: opt, Long: true, Argument: s[eq+1:]}, false, opt.Arity == NoArgument
 		}
 	}
 	// Unknown option, treat as taking an optional argument
 	if eq == -1 {
 		return &Option{
-			Spec: &OptionSpec{0, s, OptionalArgument}, Unknown: true, Long: true}, false
+			Spec: &OptionSpec{0, s, OptionalArgument}, Unknown: true, Long: true}, false, false
 	}
 	return &Option{
 		Spec: &OptionSpec{0, s[:eq], OptionalArgument}, Unknown: true,
-		Long: true, Argument: s[eq+1:]}, false
+		Long: true, Argument: s[eq+1:]}, false, false
 }
